@@ -10,22 +10,40 @@ import (
 
 	"pgregory.net/rapid"
 
+	"go.opentelemetry.io/collector/featuregate"
 	"go.opentelemetry.io/collector/service"
 	"go.opentelemetry.io/collector/verifharness/topo"
 	"go.opentelemetry.io/collector/verifharness/vt"
 )
 
-func TestMain(m *testing.M) { vt.Main(m) }
+func TestMain(m *testing.M) {
+	// profiles pipelines are generated: enable the gate config validation asks for (service.New itself
+	// does not look at it)
+	_ = featuregate.GlobalRegistry().Set("service.profilesSupport", true)
+	vt.Main(m)
+}
 
-// Script is one generated service configuration.
+// Script is one generated service configuration plus how each receiver
+// instance (in the order of the evaluator's sorted receiver list) emits.
 type Script struct {
 	Topo topo.Topology `json:"topo"`
+	// Emit[i]: "" / "fresh" — a new payload; "readonly" — a new payload the emitter marked read-only
+	// (MarkReadOnly) before emitting; "reuse" — the most recent payload object of the same signal that
+	// was emitted before, is read-only by now (marked by the emitter or by the collector's own
+	// fan-out when it shared it) and still carries an empty trail (i.e. went to non-mutating consumers
+	// only, nobody owns it exclusively), emitted again as is; a fresh one if there is none.
+	Emit []string `json:"emit,omitempty"`
 }
 
 var cRoute = vt.New("C09", "graph-routing")
 
 func genRoute(t *rapid.T) Script {
-	return Script{Topo: topo.Gen(t, topo.GenOpts{Invalid: 25})}
+	s := Script{Topo: topo.Gen(t, topo.GenOpts{Invalid: 25, Profiles: true})}
+	plan := topo.Evaluate(s.Topo)
+	for range plan.Recv {
+		s.Emit = append(s.Emit, rapid.SampledFrom([]string{"fresh", "readonly", "reuse", "fresh", "readonly"}).Draw(t, "emit"))
+	}
+	return s
 }
 
 // phase runs fn, turning a panic into a finding.
@@ -141,13 +159,53 @@ func runRoute(s Script) (bool, string, *vt.Finding) {
 		return fail(vt.Failf("start-error", "Start failed: %v", err))
 	}
 	tagOf := map[string]string{}
+	type sent struct {
+		v   any
+		tag string
+		by  string // emitter | collector
+	}
+	emitted := map[string][]sent{}
 	for i, rk := range plan.Recv {
+		sig := strings.SplitN(rk, ":", 3)[1]
 		tag := fmt.Sprintf("T%d", i)
+		mode := ""
+		if i < len(s.Emit) {
+			mode = s.Emit[i]
+		}
+		var v any
+		how := "fresh"
+		switch mode {
+		case "readonly":
+			v = topo.NewPayload(sig, tag)
+			topo.MarkReadOnly(v)
+			how = "read-only (marked by the emitter)"
+			cRoute.Class("emit:read-only")
+		case "reuse":
+			prev := emitted[sig]
+			for j := len(prev) - 1; j >= 0 && v == nil; j-- {
+				if topo.IsReadOnly(prev[j].v) && topo.Untouched(prev[j].v) {
+					v, tag = prev[j].v, prev[j].tag
+					how = "re-emitted object of " + tag + ", read-only (marked by the " + prev[j].by + ")"
+					cRoute.Class("emit:re-emitted-read-only-object/marked-by-" + prev[j].by)
+				}
+			}
+		}
+		if v == nil {
+			v = topo.NewPayload(sig, tag)
+		}
 		tagOf[rk] = tag
-		if err, f := phase("consume", func() error { return w.Inject(rk, tag) }); f != nil {
+		if err, f := phase("consume", func() error { return w.InjectPayload(rk, v) }); f != nil {
+			f.Msg = fmt.Sprintf("%s payload emitted by %s did not get through: %s", how, rk, f.Msg)
 			return fail(f)
 		} else if err != nil {
-			return fail(vt.Failf("inject-error", "payload emitted by %s: %v", rk, err))
+			return fail(vt.Failf("inject-error", "%s payload emitted by %s: %v", how, rk, err))
+		}
+		by := "emitter"
+		if mode != "readonly" && how == "fresh" {
+			by = "collector"
+		}
+		if tag == fmt.Sprintf("T%d", i) { // a new object
+			emitted[sig] = append(emitted[sig], sent{v, tag, by})
 		}
 	}
 	if err, f := phase("shutdown", func() error { return srv.Shutdown(ctx) }); f != nil {
@@ -222,6 +280,35 @@ func runRoute(s Script) (bool, string, *vt.Finding) {
 	}
 	if convert {
 		cRoute.Class("signal-converting-connector")
+	}
+	for _, pl := range tp.Pipelines {
+		if pl.Signal == "profiles" {
+			cRoute.Class("profiles-pipeline")
+			break
+		}
+	}
+	for _, k := range plan.Conn {
+		f := strings.SplitN(k, ":", 3)
+		ft := strings.SplitN(f[1], ">", 2)
+		if ft[0] == "profiles" || ft[1] == "profiles" {
+			cRoute.Class("connector-instance-with-profiles:" + f[1])
+		}
+		// the factory answers differently for another source signal into the same destination (a wrong
+		// cell of the support table would be visible)
+		for _, c := range tp.Connectors {
+			if c.ID != f[2] {
+				continue
+			}
+			for _, o := range topo.Signals4 {
+				if o != ft[0] && !c.Supports(o, ft[1]) {
+					cRoute.Class("used-pair-with-unsupported-sibling-cell")
+					if ft[1] == "profiles" {
+						cRoute.Class("used-pair-into-profiles-with-unsupported-sibling-cell")
+					}
+					break
+				}
+			}
+		}
 	}
 
 	// routing oracle
